@@ -121,7 +121,7 @@ type runtimeState struct {
 	tasks     [MaxTasks]task
 	cur       int
 	back      chan struct{}
-	join      stdsync.WaitGroup
+	join      *stdsync.WaitGroup // fresh per Run: a run that ended in a fatal verdict leaves its tasks parked
 	st        Stats
 	verdict   int
 	pctChange [8]int64
@@ -487,7 +487,9 @@ func Run(fns []func()) {
 			R.npct++
 		}
 	}
-	R.join.Add(n)
+	join := &stdsync.WaitGroup{}
+	R.join = join
+	join.Add(n)
 	for i, f := range fns {
 		i, f := i, f
 		go func() {
@@ -495,7 +497,7 @@ func Run(fns []func()) {
 			<-R.tasks[i].wake
 			raceOn()
 			f()
-			R.join.Done()
+			join.Done()
 			taskExit(i)
 		}()
 	}
@@ -504,12 +506,13 @@ func Run(fns []func()) {
 	k := runnable(&list, -1)
 	first := pickOther(&list, k)
 	R.cur = first
+	back := R.back // a later Run (after a fatal verdict, in tests) must not have its signal taken by this one
 	raceOff()
 	R.tasks[first].wake <- struct{}{}
-	<-R.back
+	<-back
 	raceOn()
 	R.active = false
-	R.join.Wait()
+	join.Wait()
 }
 
 // Go starts f the way a go statement would: as a new simulated task while the
@@ -525,13 +528,14 @@ func Go(f func()) {
 	if id < 0 {
 		fatal(VHarnessBug, "more than MaxTasks simulated tasks")
 	}
-	R.join.Add(1)
+	join := R.join
+	join.Add(1)
 	go func() {
 		raceOff()
 		<-R.tasks[id].wake
 		raceOn()
 		f()
-		R.join.Done()
+		join.Done()
 		taskExit(id)
 	}()
 	Yield(YGo, uint64(id))
